@@ -15,8 +15,9 @@ def analyse(seq, trail=0, cut=0, empty_mask=0):
             if phase == 3: bad = True; continue
             if k == 1:
                 if phase == 0: phase = 1
-                elif flags[i]: dup = True
-                else: bad = True
+                else:
+                    bad = True
+                    if flags[i]: dup = True
             elif k == 2:
                 if phase == 1: nc += 1
                 else: bad = True
@@ -28,7 +29,7 @@ def analyse(seq, trail=0, cut=0, empty_mask=0):
                 else: bad = True
             else:
                 if not flags[i]: bad = True
-        if dup: res["dup"] = True; continue
+        if dup: res["dup"] = True
         ok = (not bad) and phase == 3
         if not ok: res["bad"] = True
         else:
@@ -56,6 +57,7 @@ def group(label, cases):
     if any(a["recs"] for a in an): d.append("W_RECS=1")
     if any(a["min"] for a in an): d.append("W_MIN=1")
     if any(a["unk"] for a in an): d.append("W_UNK=1")
+    if any(a["dup"] for a in an): d.append("W_DUP=1")
     return {"label": label, "defines": d}
 
 
